@@ -17,8 +17,12 @@ TECH = "contract-based deductive verification: //@ contracts on the real functio
 CHECKS = {
 "C03": dict(
   text="Proof (for all argument values, no bound) that the run-time functions every slice expression, string slice and make([]T) is lowered to panic exactly when Go mandates it, before any heap write, and with the mandated message; obligations generated from /repo's current source on every run.",
-  note="Decided: NewSlice3 (all 2-/3-index slice forms funnel here), StringSlice, MakeSlice (+ messages). Not decided here: nil-dereference via SIGSEGV handler, recover-ability (C04), failed type assertion CFG, placement of checks by the compiler, channel-misuse and nil-map clauses (see DESIGN.md). Trusted: go/ssa+go/types, SMT solvers, runtime/math.MulUintptr, allocator contract. Integers are 64-bit bit-vectors (W=64 only).",
+  note="Decided: NewSlice3 (all 2-/3-index slice forms funnel here), StringSlice, MakeSlice (+ messages), send on / close of a closed channel and close of a nil channel (ChanSend, ChanTrySend, ChanClose; decided at the commit point under the channel lock). Not decided here: nil-dereference via SIGSEGV handler, recover-ability (C04), failed type assertion CFG, placement of checks by the compiler, send on a nil channel (Go spec: blocks forever), nil-map clause (see DESIGN.md). Trusted: go/ssa+go/types, SMT solvers, runtime/math.MulUintptr, allocator contract. Integers are 64-bit bit-vectors (W=64 only).",
   ref="DESIGN.md §3 C03"),
+"C10": dict(
+  text="Proof by monitor (lock-invariant) reasoning, valid under every interleaving and with spurious wake-ups: for buffered channels every critical section of ChanSend/ChanTrySend/ChanRecv/chanTryRecv/ChanClose/ChanLen preserves the ring-buffer invariant (0<=len<=cap, 0<=getp<cap, fixed buffer), a successful send writes exactly the slot (getp+len) mod cap with the sender's bytes and increments len, a successful receive delivers slot getp, advances getp and decrements len, nothing else in the buffer changes, a receive yields ok=false only when closed and empty; protected fields are only touched under the lock.",
+  note="Not decided: unbuffered rendezvous protocol, Select/TrySelect commitment, every liveness clause (wake-ups, no avoidable deadlock), the lemma from ring-buffer steps to the abstract FIFO sequence (argued in DESIGN.md). Trusted: pthread mutual exclusion, memcpy, notifyOps touches only selectOp state, eltSize consistent across calls (< 2^16, cap < 2^28), chanbuf(p) fixed by NewChan.",
+  ref="DESIGN.md §3 C10"),
 "C05": dict(
   text="Proof (all inputs, all loop iterations via invariants) of functional contracts taken from the property: append/grow/copy/slice header arithmetic, storage sharing, byte-exact prefix/appended contents incl. overlap and zero-size elements; UTF-8 decode/encode against Unicode Table 3-6/3-7 spec functions and their round-trip lemma; string concat/equality/ordering/iteration/conversions.",
   note="Trusted: libc memcpy/memmove/memset contracts (memcpy requires non-overlap: obligation), allocator freshness, clite.Advance, go 'make'. GrowSlice/SliceAppend/SliceCopy are verified under stated size bounds (etSize < 2^16, cap,num < 2^28) in int mode with explicit no-overflow obligations; typed and raw memory views assumed disjoint. StringToRunes/StringFromRunes: see evidence (loop safety only).",
